@@ -37,6 +37,8 @@ def check(prog, rep, tier):
                       'methods; the REST statistic view returns the dictionaries of the tracked protocol')
     rep.rule('R18.e', 'counted implies written: the Data argument of every send_notification call in the reaction table '
                       'is a byte string, so the constructor cannot raise between the counter increment and the write')
+    rep.rule('R18.g', 'a received UPDATE frame is always counted: Update.parse cannot raise (everything after the length reads is '
+                      'inside its exception funnel), so _update_received always reaches the counter (rule shared with C11 R11.d)')
     rep.rule('R18.f', 'received UPDATEs are counted: the per-family bookkeeping that _update_received runs before the '
                       'counter increment cannot raise on a decoded flowspec route - where its family test is live (same '
                       'sequence kind as the decoder yields) the integer component keys are not concatenated to text '
@@ -109,6 +111,10 @@ def check(prog, rep, tier):
     notification_data_rule(tab, rep, 'R18.e', consequence='send_notification has already counted the NOTIFICATION when '
                            'Notification.construct raises TypeError on it, so a message is counted that never reaches '
                            'the wire')
+
+    # ---------------------------------------------------------------- R18.g
+    from .c11 import update_parse_funnel
+    update_parse_funnel(prog, rep, 'R18.g')
 
     # ---------------------------------------------------------------- R18.f
     receive_bookkeeping_cannot_raise(prog, rep, bgp)
